@@ -205,11 +205,24 @@ func VerifPointStep() {
 		_, inM := pt.Meta[k]
 		verifnd.Assert(!inF && !inT && !inM, "deleted-key-is-gone")
 	case 4:
-		to := []string{"message", "a", "fresh"}[verifnd.Choice(3)]
+		// `_` is the documented alias of `message`, on either side
+		toArg := []string{"message", "a", "fresh", "_"}[verifnd.Choice(4)]
+		fromArg := k
+		if k == "message" && verifnd.Int(0, 1) == 1 {
+			fromArg = "_"
+		}
+		to := toArg
+		if to == "_" {
+			to = "message"
+		}
 		touched[to] = true
 		src := vSnap(pt, k)
-		_ = renamePtKey(pt, to, k)
+		_ = renamePtKey(pt, toArg, fromArg)
 		verifnd.Reach("rename")
+		if to == k {
+			verifnd.Reach("rename-onto-itself")
+			verifnd.Assert(vSnapSame(pt, k, src), "rename-onto-itself-is-a-no-op")
+		}
 		if to != k && (src.inF || src.inT) {
 			_, inF := pt.Fields[k]
 			_, inT := pt.Tags[k]
